@@ -13,7 +13,9 @@
 (*              that is known to have applied index i                        *)
 (*     pollend  the server ended a long poll                                 *)
 (* aux.ndjson   - raft state of the nodes over time (fol / lead intervals),  *)
-(*     the lines the nodes' sweeps logged (sweeplog), faults, end.           *)
+(*     the lines the nodes' sweeps logged (sweeplog), faults, end, and the   *)
+(*     run-time restores of nodes (restore: FSM.Restore replaced the node's  *)
+(*     server object while its timer loop went on).                          *)
 (*                                                                           *)
 (* All times are milliseconds of ONE clock (same machine).  The tick times   *)
 (* of the sweeps are not recorded anywhere: TLC infers them.  For a          *)
@@ -144,6 +146,29 @@ Missed(d, live) == IF FirstOfCluster(d) /\ Judgeable(d)
                       THEN {s \in live \ {Trace[d].s} : CertainlyIdle(s, d) /\ ~ EndedBy(s, d, BatchEnd(d))}
                       ELSE {}
 
+(* ------------------------------------------------------------ run-time restores *)
+\* aux record "restore": node n replaced its server object at run time (raft InstallSnapshot ->
+\* FSM.Restore; the node's own hook trace says fsm.restored) between t and t2; i = the last index its
+\* FSM.Apply had finished before (what the ORPHANED object holds, for ever), s = the last index of the
+\* irclog the restore left.  In the specification (Expiry!Restore) the new object holds the applied
+\* prefix, so a restore changes nothing of what a later tick of n may see: the predicates above judge
+\* n's sweeps like everybody's, against the log.  What the event adds:
+\*   - RestoredSweeps, the sweep entries n proposed after its restore: the witness that "expiry after a
+\*     run-time restore" was observed at all (the caller insists on it for the scenario made for it);
+\*   - a diagnosis for a sweep entry that violates OnlyIdleExpire: does the orphaned object (the prefix
+\*     up to i, frozen) explain it?  Then the sweep read a reference taken before the restore
+\*     (Expiry_stale.cfg is that variant of the design).  Likewise for a session that is never swept
+\*     and was created after i.  Diagnoses accompany violations; they are not verdicts.
+Restores == {a \in AuxSet : a.ev = "restore"}
+RestoredSweeps == {k \in SweepPos : \E r \in Restores : Trace[k].by = r.n /\ Trace[k].ts > r.t2}
+PrefixAt(idx) == Max({0} \cup {k \in EPos : Trace[k].i <= idx})
+StaleExplains(d) ==
+    \E r \in Restores :
+       /\ Trace[d].by \in {0, r.n} /\ r.t2 <= Trace[d].ts
+       /\ LET j == PrefixAt(r.i) IN
+            /\ Created(Trace[d].s, j)
+            /\ SweepRecOK([reply |-> Trace[d].r, la |-> LA(Trace[d].s, j), T |-> THi(d) + Eps, exp |-> ExpAt(j)])
+
 (* ------------------------------------------------------------------ small model *)
 NickOf(a) == IF a \in DOMAIN nick THEN nick[a] ELSE ""
 Held(x, except) == (\E a \in alive \ except : NickOf(a) = x) \/ (\E p \in pnicks : p[2] = x)
@@ -194,6 +219,8 @@ DeleteEntry(e) ==
                                      \cup (IF ActiveOK(l) THEN {} ELSE {<<"ActiveNeverExpires", l>>})
                                      \cup (IF Missed(l, alive) = {} THEN {} ELSE {<<"SweepsAllIdle", l>>})
                        /\ notes' = notes \cup (IF e.named < 0 THEN {<<"the quit text of a sweep entry names no timeout", l>>} ELSE {})
+                                          \cup (IF ~ Good(l) /\ StaleExplains(l)
+                                                   THEN {<<"DIAG the server object the proposing node's run-time restore had orphaned explains this sweep entry", l>>} ELSE {})
                        /\ Infer(e)
                   ELSE UNCHANGED <<viol, notes, cur, conf>>
             /\ UNCHANGED nick
@@ -293,6 +320,10 @@ Finish ==
                       \cup {<<"a snapshot did not fold the window 'expiration in force + sweep interval'", a.i>> : a \in {a \in Snapshots : ~ FoldOK(a)}}
                       \cup (IF cur.T >= 0 /\ cur.todo \cap alive # {} /\ EndT - cur.T > Interval + ProposeSlack
                                THEN {<<"a sweep left an idle session out", cur.T>>} ELSE {})
+                      \cup (IF Restores # {} THEN {<<"WITNESS sweep entries proposed by a node after its run-time restore", Cardinality(RestoredSweeps)>>} ELSE {})
+                      \cup {<<"DIAG the overdue session was created after the run-time restore of the node in office: the orphaned server object does not hold it", s>> :
+                               s \in {s \in alive : EndT > -Inf /\ Overdue(s)
+                                                    /\ \E r \in Restores : s > r.i /\ \E f \in Lead : f.n = r.n /\ f.t >= r.t /\ f.t2 + 3000 >= EndT}}
     /\ UNCHANGED <<alive, ended, nick, pnicks, cur, conf>>
 
 (* ---------------------------------------------------------------------- steps *)
